@@ -129,6 +129,10 @@ def render(n, edges, initial, final, strict, style, any_targets=(), bare_event=F
                 flags.append("initial=True")
             if s in final:
                 flags.append("final=True")
+            if "vals" in mods:
+                # explicit values; `eqvals`: some states carry EQUAL values (1 / 1.0 / True), which the
+                # statement does not make ill-formed -- every rule is about states, not values
+                flags.append("value=%s" % (VALS_EQ if "eqvals" in mods else VALS)[s % 5])
             decls.append((f"s{s}", f"State({', '.join(flags)})"))
         if "dict" in mods:
             pre = "_S."
@@ -180,6 +184,8 @@ def render(n, edges, initial, final, strict, style, any_targets=(), bare_event=F
     return "\n".join(lines) + "\n"
 
 
+VALS = ["10", "'b'", "0", "2.5", "''"]
+VALS_EQ = ["1", "1.0", "True", "'x'", "'x'"]
 STYLES = ["per_edge", "from", "one_event", "multi_target", "event_kw"]
 
 
@@ -255,7 +261,7 @@ def judge(case, counters, violations, samples, sigs):
         samples.append({"source": src, "oracle": exp, "observed": [got, nwarn, info]})
 
 
-def all_cases_exhaustive(n, part, parts, fixed_initial=False):
+def all_cases_exhaustive(n, part, parts, fixed_initial=False, mods=""):
     pairs = [(i, j) for i in range(n) for j in range(n)]
     flagsets = [frozenset(c) for r in range(n + 1) for c in itertools.combinations(range(n), r)]
     inits = [frozenset([0])] if fixed_initial else flagsets
@@ -269,7 +275,7 @@ def all_cases_exhaustive(n, part, parts, fixed_initial=False):
                 for strict in (False, True):
                     style = STYLES[idx % len(STYLES)]
                     idx += 1
-                    yield (n, edges, init, fin, strict, style, (), False)
+                    yield (n, edges, init, fin, strict, style + mods, (), False)
 
 
 def sampled_case(rng):
@@ -323,6 +329,8 @@ def sampled_case(rng):
         style += "+dict" + ("+names" if rng.random() < 0.3 else "")
     elif r < 0.42:
         style += "+sub"
+    elif r < 0.54:
+        style += "+vals" + ("+eqvals" if rng.random() < 0.6 else "")
     return (n, edges, init, fin, strict, style, any_targets, bare)
 
 
@@ -333,6 +341,8 @@ def plan(tier, seed):
         shards.append({"kind": "specials"})
         shards.append({"kind": "exh", "n": 1, "part": 0, "parts": 1})
         shards.append({"kind": "exh", "n": 2, "part": 0, "parts": 1})
+        shards.append({"kind": "exh", "n": 2, "part": 0, "parts": 1, "mods": "+vals+eqvals"})
+        shards.append({"kind": "exh", "n": 2, "part": 0, "parts": 1, "mods": "+vals"})
         for p in range(P):
             shards.append({"kind": "exh", "n": 3, "part": p, "parts": P})
         for p in range(P):
@@ -341,6 +351,8 @@ def plan(tier, seed):
         shards.append({"kind": "specials"})
         shards.append({"kind": "exh", "n": 1, "part": 0, "parts": 1})
         shards.append({"kind": "exh", "n": 2, "part": 0, "parts": 1})
+        shards.append({"kind": "exh", "n": 2, "part": 0, "parts": 1, "mods": "+vals+eqvals"})
+        shards.append({"kind": "exh", "n": 2, "part": 0, "parts": 1, "mods": "+vals"})
         for p in range(P):
             shards.append({"kind": "exh", "n": 3, "part": p, "parts": P})
         for p in range(64):
@@ -366,9 +378,10 @@ def run_shard(desc):
                 })
         exhaustive = True
     elif desc["kind"] == "exh":
-        for case in all_cases_exhaustive(desc["n"], desc["part"], desc["parts"], desc.get("fixed_initial", False)):
+        for case in all_cases_exhaustive(desc["n"], desc["part"], desc["parts"], desc.get("fixed_initial", False),
+                                         desc.get("mods", "")):
             judge(case, counters, violations, samples, sigs)
-        counters[f"exhaustive_n{desc['n']}_cases"] = counters["evaluated"]
+        counters[f"exhaustive_n{desc['n']}{desc.get('mods', '').replace('+', '_')}_cases"] = counters["evaluated"]
         exhaustive = True
     else:
         rng = random.Random(desc["seed"])
